@@ -16,7 +16,7 @@
    the Go results with the executable enclosure (Run.v): [partial: float <-> real]. *)
 From Coq Require Import Reals ZArith List.
 From Flocq Require Import Raux.
-From C35 Require Import Model Proofs Encl Ideal.
+From C35 Require Import Model Proofs Encl Ideal History.
 Import ListNotations.
 Open Scope Z_scope.
 
@@ -101,3 +101,12 @@ Theorem c35_table :
   (IZR (clo (Z.of_nat n)) <= Rpower 2 (- IZR (Z.of_nat n) / 60) * IZR SC <= IZR (clo (Z.of_nat n) + 1))%R.
 Proof. intros n H. destruct (tab_sound n H) as [[_ L] U]. split; [exact L|exact U]. Qed.
 Print Assumptions c35_table.
+
+(* The pinned p2p/trust/banscore.go (decay table never initialised: factor 0
+   for dt < 64 s) violates the rule: one second after Increase(0, 100) its
+   score is 0 while the rule gives at least 50.  Repaired in /repo. *)
+Theorem c35_pinned_trust_refuted :
+  let s := fst (increase zero 0 100 1000) in
+  pinned_score s 1001 = 0 /\ 50 <= score s 1001.
+Proof. exact pinned_trust_refuted. Qed.
+Print Assumptions c35_pinned_trust_refuted.
